@@ -320,7 +320,7 @@ def run_cases(ctx, n_models, n_states, seed_offset=0, spec_only=False):
           plan.append(('inv', m, dict(q=np.asarray(rq), qd=np.asarray(rqd), src='random+synthetic-motion')))
         m.release()
   res = dict(models=models, spec_failures=spec_failures, stack_hist=stack_hist, vel_meas=vel_meas,
-             disagreements=[], evaluations=0, skipped=0, branch_hist={}, model_rt_max=0.0, cases=len(plan))
+             disagreements=[], evaluations=0, skipped=0, skipped_src={}, branch_hist={}, model_rt_max=0.0, cases=len(plan))
   if spec_only:
     return res
   out = C.run_driver('Driver/C08.lean', lines)
@@ -352,6 +352,8 @@ def run_cases(ctx, n_models, n_states, seed_offset=0, spec_only=False):
       res['branch_hist'][tag] = res['branch_hist'].get(tag, 0) + 1
     if margin < NEAR:
       res['skipped'] += 1
+      src = ('quantifier:' if m.in_q else 'outside-quantifier:') + (op if op == 'rt' else pl.get('src', op))
+      res['skipped_src'][src] = res['skipped_src'].get(src, 0) + 1
       continue
     bad = q_close(m.sys, q_l, pl['q'], TOL)
     if bad or not close(qd_l, pl['qd']):
@@ -498,10 +500,10 @@ def shrink_all(models, fails, limit=3):
 
 def correspond(ctx):
   t0 = time.time()
-  n_models = ctx.budget(40, 400)
+  n_models = ctx.budget(40, 360)
   r = run_cases(ctx, n_models, 3)
   t1 = time.time()
-  p = run_pipelines(ctx, ctx.budget(4, 24))
+  p = run_pipelines(ctx, ctx.budget(4, 20))
   t2 = time.time()
   m0 = r['models'][0]
   distinct = len({(m.sys.link_types, tuple(m.sys.link_parents), tuple(m.kinds)) for m in r['models']})
@@ -527,7 +529,8 @@ def correspond(ctx):
       explanation='model<->implementation for world_to_joint / inverse / step tail; the round trip evaluated on the real code '
                   'for every link inside the quantifier; theorems in Props/C08.lean',
       extra=dict(stack_histogram=r['stack_hist'], branch_histogram=r['branch_hist'],
-                 skipped_near_branch=r['skipped'] + p['skipped'], velocity_roundtrip=vel,
+                 skipped_near_branch=r['skipped'] + p['skipped'], skipped_near_branch_by_source=r['skipped_src'],
+                 velocity_roundtrip=vel,
                  lean_model_position_roundtrip_max_err=r['model_rt_max'], pipeline_steps=p['hist'],
                  seconds=dict(kinematics=round(t1 - t0, 1), pipelines=round(t2 - t1, 1))))
 
